@@ -31,7 +31,9 @@ TRUSTED = ['SQLite BLOB comparison = memcmp then length (the Bytes order) and OR
            '(exercised on every case, not modelled below the WHERE predicate)',
            'zlib/msgpack round trip of the example tables (exercised; property C16)',
            'numpy arithmetic on small int64 values',
-           'tools/anchors/federated_data.py: bytes / Optional[bytes] extension of the translator and its SQL-predicate parser']
+           'tools/anchors/federated_data.py: bytes / Optional[bytes] / object-level extension of the translator, its SQL statement parser, and the '
+           'reading of generator / cursor loops as the list combinators of Common/PyIter.v (for_yield, for_raise_yield, for_keep_yield, fetch_all, sql_where, sql_by_key)',
+           'C15_Model.buffered_shuffle (the mirror of client_datasets.buffered_shuffle, tied by C15)']
 ASSUMPTIONS = ['client ids of the logical dataset are distinct (they are dict keys / a PRIMARY KEY)',
                'shuffled pass: buffer_size >= 1 and every rng.randint(buffer_size) draw d satisfies -buffer_size <= d (NumPy: 0 <= d < buffer_size; asserted on every recorded draw)',
                'dict(examples) and assert_consistent_rows(out) inside the preprocessor __call__s are identities on the modelled family',
@@ -43,11 +45,15 @@ CASE_TIMEOUT = 60
 
 PIPES = ['mem', 'sql', 'submem', 'subsql']
 # the extra feature column w = f(original x): dtypes the SQLite (msgpack) path supports
+# the name of that column rotates over names the code uses internally for other things
+WNAMES = ['w', 'data', 'client_id', 'num_examples', '__mask__', '']
 WKINDS = ['none', 'float16', 'uint8', 'bool', 'int8', 'int32big', 'complex64', 'datetime64[D]', 'object', 'float64']
 COQ_PIPE = {'mem': 'PMem', 'sql': 'PSql', 'submem': 'PSubMem', 'subsql': 'PSubSql'}
 
 POOL = [b'', b'\x00', b'\x00\x00', b'a', b'a\x00', b'a\x00\x00', b'a\x01', b'aa', b'ab', b'a\xff', b'b',
-        b'\x7f', b'\x80', b'\xff', b'\xff\x00', b'\xff\xff', b'B', b'ab\x00', b'\x00a']
+        b'\x7f', b'\x80', b'\xff', b'\xff\x00', b'\xff\xff', b'B', b'ab\x00', b'\x00a',
+        # values that look like the code's own placeholders / SQL text / bounds of the generator
+        b'start', b':start', b'stop', b'None', b"';--", b'%', b'_', b'__mask__', b'client_id', b'\xff\xff\xff', b'\xff\xff\xff\xff']
 ALPHA = [0, 1, 0x61, 0x62, 0x7f, 0x80, 0xff]
 
 
@@ -108,7 +114,8 @@ def gen_case(rng, max_clients=6, max_ops=6):
     if i not in ids:
       ids.append(i)
   rng.shuffle(ids)
-  ds = [[hx(i), [rng.randrange(-3, 10) for _ in range(rng.choice([0, 1, 1, 2, 2, 3, 4]))]] for i in ids]
+  # rows differ between clients (client j holds values around 13*j) so that a mis-association of ids and tables shows
+  ds = [[hx(i), [13 * j + rng.randrange(-3, 10) for _ in range(rng.choice([0, 1, 1, 2, 2, 3, 4]))]] for j, i in enumerate(ids)]
   aliens = []
   for _ in range(rng.randrange(1, 4)):
     a = _near(rng, ids)
@@ -148,12 +155,12 @@ def gen_case(rng, max_clients=6, max_ops=6):
       rng.shuffle(sub)
       ops.append(['subset', [hx(i) for i in sub]])
     elif r < 0.84:
-      kinds = ['add', 'mul', 'addid', 'tail', 'mark'] + (['dup'] if ndup < 2 else [])
+      kinds = ['add', 'mul', 'addid', 'tail', 'mark', 'yz'] + (['dup'] if ndup < 2 else [])
       k = rng.choice(kinds)
       ndup += k == 'dup'
       ops.append(['prec', [k, rng.randrange(-2, 4)] if k in ('add', 'mul') else [k]])
     else:
-      ops.append(['preb', [rng.choice(['add', 'mul']), rng.randrange(-2, 4)]])
+      ops.append(['preb', [rng.choice(['add', 'mul', 'ymul']), rng.randrange(-2, 4)]])
   reqs = []
   vis = sorted(_visible(ids, ops))
   for q in range(rng.randrange(1, 4)):
@@ -163,9 +170,10 @@ def gen_case(rng, max_clients=6, max_ops=6):
       req.insert(rng.randrange(len(req) + 1), rng.choice(universe))
     reqs.append([hx(i) for i in req])
   return {'ds': ds, 'aliens': [hx(a) for a in aliens], 'ops': ops, 'reqs': reqs,
-          'mid': rng.randrange(0, len(ops) + 1), 'buf': rng.randrange(1, n + 3),
+          'mid': rng.randrange(0, len(ops) + 1), 'buf': rng.choice([rng.randrange(1, n + 3)] * 9 + [1000]),
           'seed': rng.choice([0, 0, None, rng.randrange(1000), rng.randrange(1000), rng.randrange(1000)]),
           'wk': rng.randrange(0, len(WKINDS)),       # dtype of the extra feature column w
+          'wn': rng.randrange(0, len(WNAMES)),       # its name
           'forms': rng.randrange(0, 1000),           # rotates argument delivery / call forms
           'bufnp': rng.random() < 0.3}               # buffer_size as np.int64
 
@@ -228,6 +236,8 @@ def _cfn(spec):
     return lambda cid, ex: {f: v[1:] for f, v in ex.items()}
   if k == 'mark':   # adds a feature: visible in the feature set / dtypes even on a client without examples
     return lambda cid, ex: {**ex, 'z': (ex['x'] * 0 + 7).astype(np.int16)}
+  if k == 'yz':     # uses the feature an EARLIER client function may have added (preprocessing of preprocessed data)
+    return lambda cid, ex: {**ex, 'y': ex['y'] + ex['z'][:, None].astype(np.int32)} if 'z' in ex else dict(ex)
   raise ValueError(spec)
 
 
@@ -236,6 +246,8 @@ def _bfn(spec):
     return lambda ex: {**ex, 'x': ex['x'] + spec[1]}
   if spec[0] == 'mul':
     return lambda ex: {**ex, 'x': ex['x'] * spec[1]}
+  if spec[0] == 'ymul':
+    return lambda ex: {**ex, 'y': ex['y'] * np.int32(spec[1])}
   raise ValueError(spec)
 
 
@@ -243,8 +255,9 @@ def _wcol(orig, wk):
   """The extra column as a function of the ORIGINAL x value of each row."""
   x = np.array(orig, dtype=np.int64).reshape(len(orig))
   k = WKINDS[wk]
+  special = np.where(x % 5 == 0, np.nan, np.where(x % 5 == 1, np.inf, np.where(x % 5 == 2, -np.inf, 0.0)))
   if k == 'float16':
-    return (x / 2).astype(np.float16)
+    return (x / 2 + special).astype(np.float16)       # NaN / +inf / -inf on real rows
   if k == 'uint8':
     return (x % 256).astype(np.uint8)
   if k == 'bool':
@@ -260,7 +273,7 @@ def _wcol(orig, wk):
   if k == 'object':
     return np.array([b'r%d\x00' % v for v in orig] + [None], dtype=object)[:-1]
   if k == 'float64':
-    return x * 0.1
+    return x * 0.1 + special
   return None
 
 
@@ -271,14 +284,18 @@ def _wobs(w):
   return [w.dtype.name, list(w.shape), [hx(v) for v in w] if w.dtype == object else w.tobytes().hex()]
 
 
-def _examples(rows, wk=0):
+def _examples(rows, wk=0, rot=0, wn=0):
+  """The stored examples of one client.  `rot` rotates the ORDER of the feature keys (the order of a
+  client's feature mapping carries no meaning: the same logical dataset)."""
   x = np.array(rows, dtype=np.int64).reshape(len(rows))
   y = np.stack([x * 2, x * 2 + 1], axis=1).astype(np.int32).reshape(len(rows), 2)
   ex = {'x': x, 'y': y}
   w = _wcol(rows, wk)
   if w is not None:
-    ex['w'] = w
-  return ex
+    ex[WNAMES[wn]] = w
+  keys = list(ex)
+  r = rot % len(keys)
+  return {k: ex[k] for k in keys[r:] + keys[:r]}
 
 
 def _err(ex):
@@ -299,9 +316,10 @@ def _dsobs(d):
   r = {'x': [int(v) for v in raw['x']], 'ax': [int(v) for v in al['x']],
        'y': [int(v) for v in np.asarray(raw['y']).reshape(-1)], 'ay': [int(v) for v in np.asarray(al['y']).reshape(-1)],
        'n': len(d), 'meta': meta if meta == meta_a else meta + ' / ' + meta_a}
-  if 'w' in raw or 'w' in al:
-    r['w'] = _wobs(raw.get('w'))
-    r['aw'] = _wobs(al.get('w'))
+  extra = sorted(set(k for k in list(raw) + list(al) if k not in ('x', 'y', 'z')))
+  if extra:
+    r['w'] = _wobs(raw.get(extra[0]))
+    r['aw'] = _wobs(al.get(extra[0]))
   return r
 
 
@@ -593,7 +611,7 @@ def run(case):
   from fedjax.core import federated_data as fdm
   from fedjax.core import in_memory_federated_data as imm
   from fedjax.core import sqlite_federated_data as sqm
-  wk, forms = case.get('wk', 0), case.get('forms', 0)
+  wk, forms, wn = case.get('wk', 0), case.get('forms', 0), case.get('wn', 0)
   ds = [(unhx(i), rows) for i, rows in case['ds']]
   ids = [i for i, _ in ds]
   universe = ids + [unhx(a) for a in case['aliens']]
@@ -609,7 +627,8 @@ def run(case):
   cdm.NoOpBatchPreprocessor._fns = ()
   try:
     path = os.path.join(tmp, 'fd.sqlite')
-    owned = {i: _examples(rows, wk) for i, rows in ds}       # the caller's data: must stay as it is
+    # the caller's data: must stay as it is.  Clients list their features in different key orders.
+    owned = {i: _examples(rows, wk, forms + k if k else 0, wn) for k, (i, rows) in enumerate(ds)}
     snap = _snapshot(owned)
     with sqm.SQLiteFederatedDataBuilder(path) as b:
       if forms % 2:
@@ -618,7 +637,12 @@ def run(case):
         b.add_many([(i, owned[i]) for i in ids])
     mapping = [owned, collections.OrderedDict(owned),
                types.MappingProxyType({i: types.MappingProxyType(e) for i, e in owned.items()})][forms % 3]
-    mem = imm.InMemoryFederatedData(mapping)
+    try:
+      mem = imm.InMemoryFederatedData(mapping)
+    except ValueError as ex:
+      if 'Inconsistent features' in str(ex):     # the same features in another key order were refused
+        return {'inmemory_rejects_feature_order': str(ex)[:200]}
+      raise
     sql = sqm.SQLiteFederatedData.new(path)      # the documented way to open a file
     conn2, conn3 = sqlite3.connect(path), sqlite3.connect(path)
     sql2 = sqm.SQLiteFederatedData(conn2, sqm.decompress_and_deserialize)   # the direct constructor
@@ -651,17 +675,23 @@ def run(case):
           _call(lambda c=child: int(c.num_clients()))
           _stream(child.clients())
     # the same chains given to the constructors directly (another entry point): slices / subsets applied afterwards
-    cfns = [_cfn(o[1]) for o in case['ops'] if o[0] == 'prec']
-    bfns = [_bfn(o[1]) for o in case['ops'] if o[0] == 'preb']
+    nc, nb = sum(o[0] == 'prec' for o in case['ops']), sum(o[0] == 'preb' for o in case['ops'])
+    kc, kb = (nc, nb) if forms % 2 == 0 else (nc // 2, (nb + 1) // 2)     # all of the chains, or their first parts
+    cfns = [_cfn(o[1]) for o in case['ops'] if o[0] == 'prec'][:kc]
+    bfns = [_bfn(o[1]) for o in case['ops'] if o[0] == 'preb'][:kb]
     ctor = {'mem': imm.InMemoryFederatedData(mapping, fdm.ClientPreprocessor(cfns), cdm.BatchPreprocessor(bfns)),
             'sql': sqm.SQLiteFederatedData(conn3, sqm.decompress_and_deserialize, None, None,
                                            preprocess_client=fdm.ClientPreprocessor(cfns),
                                            preprocess_batch=cdm.BatchPreprocessor(bfns))}
     ctor_obs = {}
     for p, cur in ctor.items():
+      seen = {'prec': 0, 'preb': 0}
       for oi, o in enumerate(case['ops']):
-        if o[0] in ('slice', 'subset'):
-          cur, _r, _ok = _apply(fdm, cur, o, forms + oi + 1)
+        if o[0] in ('prec', 'preb'):
+          seen[o[0]] += 1
+          if seen[o[0]] <= (kc if o[0] == 'prec' else kb):
+            continue            # already inside the constructor-supplied chain
+        cur, _r, _ok = _apply(fdm, cur, o, forms + oi + 1)
       ctor_obs[p] = _observe(cur, universe, reqs, buf, seed, None, forms)
     # every view again, after all of its descendants exist
     # (this time with interleaved access: while one path is iterated, others are used on the same
@@ -679,7 +709,8 @@ def run(case):
     changed = [[p, k] for p in PIPES for k in range(len(views[p])) if stable(before[p][k]) != stable(after[p][k])]
     return {'views': after, 'refused': refused, 'changed': changed, 'ctor': ctor_obs,
             'caller_intact': bool(intact and _snapshot(owned) == snap and all_ids_set == set(ids) and
-                                  list(owned) == ids and all(list(e) == list(_examples([], wk)) for e in owned.values())),
+                                  list(owned) == ids and
+                                  all(list(e) == list(_examples([], wk, forms + k if k else 0, wn)) for k, e in enumerate(owned.values()))),
             'kept_intact': all((_dsobs(kept[p]) if ids else None) == kept_before[p] for p in PIPES),
             'defaults_intact': defaults_clean and fdm.NoOpClientPreprocessor._fns == () and cdm.NoOpBatchPreprocessor._fns == ()}
   finally:
@@ -721,13 +752,13 @@ def _ref_c(spec, cid, x, y):
     return x + x, y + y
   if k == 'tail':
     return x[1:], y[1:]
-  if k == 'mark':
+  if k in ('mark', 'yz'):
     return x, y
   raise ValueError(spec)
 
 
 def _ref_b(spec, x):
-  return [v + spec[1] for v in x] if spec[0] == 'add' else [v * spec[1] for v in x]
+  return [v + spec[1] for v in x] if spec[0] == 'add' else [v * spec[1] for v in x] if spec[0] == 'mul' else x
 
 
 def reference(case):
@@ -755,19 +786,33 @@ def reference(case):
   return stored, out, refused
 
 
-def _ref_dataset(stored, cid, cc, bc, wk=0):
+def _ref_dataset(stored, cid, cc, bc, wk=0, wn=0):
   x = list(stored[cid])
-  orig = list(x)          # the stored x of each surviving row: y and w are functions of it
+  rows = [(o, 0) for o in x]   # per surviving row: its stored x (y and w are functions of it) and what was added to y
+  marked = False
   for f in cc:            # client-level functions first, in registration order
-    x, orig = _ref_c(f, cid, x, orig)
+    if f[0] == 'mark':
+      marked = True
+    if f[0] == 'yz' and marked:            # z exists (= 7) only if a mark was registered BEFORE
+      rows = [(o, a + 7) for o, a in rows]
+    x, rows = _ref_c(f, cid, x, rows)
   ax = list(x)
+  ym = 1
   for g in bc:            # then batch-level functions, in registration order
     ax = _ref_b(g, ax)
-  fy = [v for o in orig for v in (2 * o, 2 * o + 1)]
+    if g[0] == 'ymul':
+      ym *= g[1]
+  orig = [o for o, _ in rows]
+  fy = [v for o, a in rows for v in (2 * o + a, 2 * o + 1 + a)]
+  fay = [v * ym for v in fy]
   w = _wcol(orig, wk)
-  meta = ('w:' + ('bool' if WKINDS[wk] == 'bool' else 'int32' if WKINDS[wk] == 'int32big' else WKINDS[wk]) + ':;' if w is not None else '') + \
-      'x:int64:;y:int32:2' + (';z:int16:' if any(f[0] == 'mark' for f in cc) else '')
-  r = {'x': x, 'ax': ax, 'y': fy, 'ay': fy, 'n': len(x), 'meta': meta}
+  feats = {'x': 'x:int64:', 'y': 'y:int32:2'}
+  if w is not None:
+    feats[WNAMES[wn]] = WNAMES[wn] + ':' + ('bool' if WKINDS[wk] == 'bool' else 'int32' if WKINDS[wk] == 'int32big' else WKINDS[wk]) + ':'
+  if marked:
+    feats['z'] = 'z:int16:'
+  meta = ';'.join(feats[k] for k in sorted(feats))
+  r = {'x': x, 'ax': ax, 'y': fy, 'ay': fay, 'n': len(x), 'meta': meta}
   if w is not None:
     r['w'] = r['aw'] = _wobs(w)
   return r
@@ -792,6 +837,11 @@ def oracle(case, obs):
     if not any(k == key for k, _ in out):
       out.append((key, msg))
 
+  if 'inmemory_rejects_feature_order' in obs:
+    return [('inmemory-rejects-feature-order',
+             'InMemoryFederatedData refuses a mapping whose clients hold the same features in a different key order '
+             '(SQLiteFederatedData accepts the same logical dataset): ' + obs['inmemory_rejects_feature_order'])]
+
   stored, ref, ref_refused = reference(case)
   for a, b in ((b'a', b'a\x00'), (b'a\x00', b'a\x00\x00'), (b'', b'\x00'), (b'a\xff', b'b'), (b'\x7f', b'\x80')):
     assert _blt(a, b) and a < b and not _blt(b, a)
@@ -800,7 +850,7 @@ def oracle(case, obs):
   wk, seed = case.get('wk', 0), case['seed']
 
   def check_view(where, o, vis, cc, bc, bad):
-    want = {i: _ref_dataset(stored, i, cc, bc, wk) for i in vis}
+    want = {i: _ref_dataset(stored, i, cc, bc, wk, case.get('wn', 0)) for i in vis}
     items = [[hx(i), want[i]] for i in vis]
     if o['num'] != ['V', len(vis)]:
       bad('num-clients', f'{where}: num_clients {o["num"]}, the view has {len(vis)} clients')
@@ -920,12 +970,15 @@ def _op(o):
     k = o[1][0]
     return 'OPreClient ' + {'add': lambda: f'(CAdd {fw.zlit(o[1][1])})', 'mul': lambda: f'(CMul {fw.zlit(o[1][1])})',
                             'addid': lambda: 'CAddId', 'dup': lambda: 'CDup', 'tail': lambda: 'CTail',
-                            'mark': lambda: 'CMark'}[k]()
+                            'mark': lambda: 'CMark', 'yz': lambda: 'CYz'}[k]()
   k = o[1][0]
-  return 'OPreBatch ' + (f'(BAdd {fw.zlit(o[1][1])})' if k == 'add' else f'(BMul {fw.zlit(o[1][1])})')
+  return 'OPreBatch ' + (f'(BAdd {fw.zlit(o[1][1])})' if k == 'add' else f'(BMul {fw.zlit(o[1][1])})' if k == 'mul'
+                         else f'(BYmul {fw.zlit(o[1][1])})')
 
 
 def encode(case, obs):
+  if 'views' not in obs:
+    return None
   universe = [i for i, _ in case['ds']] + list(case['aliens'])
 
   def ix(h):
@@ -989,7 +1042,7 @@ def encode(case, obs):
 
 
 def nontrivial(case, obs):
-  return len(case['ops']) > 0 and len(case['ds']) > 0
+  return 'views' in obs and len(case['ops']) > 0 and len(case['ds']) > 0
 
 
 def describe(case, obs):
@@ -997,7 +1050,11 @@ def describe(case, obs):
   kinds = sorted({o[0] for o in case['ops']})
   return {'clients': len(case['ds']), 'ops': len(case['ops']), 'final_view_size': min(len(ref[-1][0]), 4),
           'op_kinds': '+'.join(kinds) or 'none', 'refused_subsets': sum(refused),
-          'slices': min(sum(o[0] == 'slice' for o in case['ops']), 3)}
+          'slices': min(sum(o[0] == 'slice' for o in case['ops']), 3),
+          # hypothesis of the theorems: distinct client ids (a case that violated it would be counted here; none can,
+          # ids are drawn without repetition and become dict keys / a PRIMARY KEY)
+          'hyp_distinct_ids': len({i for i, _ in case['ds']}) == len(case['ds']),
+          'w_dtype': WKINDS[case.get('wk', 0)], 'w_name': WNAMES[case.get('wn', 0)] or "''"}
 
 
 def shrink(case):
